@@ -93,7 +93,7 @@ def gen(tier, seed, chunk, nchunks_):
                 first = argv
             step = {"env": envops, "argv": argv}
             if rng.random() < 0.3:
-                step["mode"] = "V"     # this call goes through parse(std::vector<user_input>)
+                step["mode"] = rng.choice(["V", "W"])     # this call goes through parse(std::vector<user_input>)
             steps.append(step)
         case = {"decl": d, "steps": steps}
         if len(d["opts"]) >= 2 and nseq >= 2 and rng.random() < 0.2:
@@ -188,7 +188,7 @@ def evaluate(case, lines, S):
         S.counters["scale:" + case["scale"]] += 1
     if case.get("grow"):
         S.counters["parsers-that-grew-between-two-calls"] += 1
-    S.counters["calls-through-parse(vector<user_input>)"] += sum(1 for st in case["steps"] if st.get("mode") == "V")
+    S.counters["calls-through-parse(vector<user_input>)"] += sum(1 for st in case["steps"] if st.get("mode") in ("V", "W"))
     touched = False
     for k in range(n):
         if k > 0:
